@@ -68,8 +68,13 @@ R1 = {
         M("algo/Signed.tla", "algo/Signed_B9.cfg", tiers=T, workers=12),
     ],
     "C04": [
-        M("algo/Words.tla", "algo/Words_W2N2.cfg"),
+        M("algo/Words.tla", "algo/Words_W2N2.cfg"), M("WrapperApi.tla", "WrapperApi_B3L4.cfg"),
         M("algo/Words.tla", "algo/Words_W2N3.cfg", tiers=T, workers=12), M("algo/Words.tla", "algo/Words_W4N1.cfg", tiers=T, workers=12, timeout=3000),
+    ],
+    "C12": [
+        M("WrapperApi.tla", "WrapperApi_B2L4.cfg"), M("WrapperApi.tla", "WrapperApi_B3L4.cfg"),
+        M("WrapperApi.tla", "WrapperApi_B2L4_pinned.cfg", expect_violation="WrappersValid"),
+        M("WrapperApi.tla", "WrapperApi_B2L5.cfg", tiers=T, workers=12, timeout=3000),
     ],
     "C06": [
         M("algo/Words.tla", "algo/Words_W2N2.cfg"),
